@@ -105,6 +105,8 @@ def from_json(v, st, origin='local', name=''):
             oid = st.new_oid('J')
             st.heap[oid] = RecObj('%s.%s' % (o['module'], o['cls']), fields, origin=origin, name=name)
             return Ref(oid)
+        if 'fnref' in v:
+            return FuncV(v['fnref'])
         if 'repr' in v:
             return {'__repr__': v['repr']}
     raise Unsupported('cannot import native value %r' % (v,))
@@ -183,7 +185,7 @@ class ConcreteChecker:
         ex = self._exec()
         st, args = self.build_state(jargs)
         ex.quant_range = self.quant_range(jargs)
-        for g, text in self.c.bind.items():
+        for g, text in dict(self.c.bind or {}, **((case or {}).get('bind', {}))).items():
             ex.frame.ghost[g] = ex.eval_spec(text, st)
         for r in list(self.c.requires) + list((case or {}).get('requires', [])):
             try:
@@ -203,7 +205,7 @@ class ConcreteChecker:
         ex = self._exec()
         st, args = self.build_state(jargs)
         ex.quant_range = self.quant_range(jargs)
-        for g, text in self.c.bind.items():
+        for g, text in dict(self.c.bind or {}, **((case or {}).get('bind', {}))).items():
             ex.frame.ghost[g] = ex.eval_spec(text, st)
         if not outcome['ok']:
             exc = outcome['exc'].split(':')[0]
@@ -275,6 +277,10 @@ def small_values(desc, rng, bound):
         return [None]
     if isinstance(desc, tuple) and desc[0] == 'const':
         return [desc[1]]
+    if isinstance(desc, tuple) and desc[0] == 'funcref':
+        return [{'fnref': desc[1]}]
+    if isinstance(desc, tuple) and desc[0] == 'specfn':
+        raise Unsupported('an abstract callback has no concrete domain')
     if desc in ('nat',):
         return list(range(0, bound + 1))
     if desc == 'int':
